@@ -57,7 +57,7 @@ class KnownFindings(object):
 
 
 class Check(object):
-    def __init__(self, pid, tier=None, seed=None):
+    def __init__(self, pid, tier=None, seed=None, clean=True):
         self.pid = pid
         self.tier = tier or os.environ.get('VERIF_TIER', 'quick')
         if self.tier not in ('quick', 'thorough'):
@@ -84,10 +84,13 @@ class Check(object):
         self.max_viol_print = 4
         self._classes_written = set()
         d = os.path.join(VERIF, 'out', 'replay')
-        if os.path.isdir(d):
+        if os.path.isdir(d) and clean:
             for fn in os.listdir(d):
                 if fn.startswith(pid + '-'):
-                    os.unlink(os.path.join(d, fn))
+                    try:
+                        os.unlink(os.path.join(d, fn))
+                    except OSError:      # another run of the same check is cleaning up as well
+                        pass
 
     @property
     def quick(self):
@@ -200,7 +203,7 @@ def run_driver(pid, main):
     ap.add_argument('--seed', default=None)
     ap.add_argument('--replay', default=None)
     a = ap.parse_args()
-    chk = Check(pid, a.tier, a.seed)
+    chk = Check(pid, a.tier, a.seed, clean=not a.replay)      # (a replay keeps the replay files: it is about to read one)
     try:
         if a.replay:
             main(chk, replay=json.load(open(a.replay)))
